@@ -27,7 +27,7 @@ sys.path.insert(0, VERIF)
 CONTRACT_MODULES = ['contracts.leaves', 'contracts.stages', 'contracts.stages2', 'contracts.parallel',
                     'contracts.more', 'contracts.factories', 'contracts.stp', 'contracts.cache',
                     'contracts.profiling', 'contracts.database', 'contracts.bucket', 'contracts.laws',
-                    'contracts.shuffle', 'contracts.effects', 'contracts.intersperse', 'contracts.inits', 'contracts.wu']
+                    'contracts.shuffle', 'contracts.effects', 'contracts.intersperse', 'contracts.inits', 'contracts.wu', 'contracts.forwarders']
 
 
 def load_contracts():
@@ -93,7 +93,7 @@ def jobs_for(prop, both, repo):
 CLAUSE_FAMILIES = {
     'I-idx': {'C02', 'C01', 'C16', 'C20'}, 'I-len': {'C02', 'C01', 'C04', 'C16', 'C20'},
     'I-iter': {'C01', 'C16', 'C20', 'C10', 'C12'}, 'I-keys': {'C03', 'C01', 'C16', 'C20'},
-    'I-key': {'C03', 'C01', 'C16', 'C20'}, 'I-items': {'C03', 'C01'}, 'flag': {'C02', 'C13'},
+    'I-key': {'C03', 'C01', 'C16', 'C20'}, 'I-items': {'C03', 'C01'}, 'flag': {'C02', 'C13', 'C20'},
     'getitem-other': {'C01', 'C02', 'C16'}, 'copy': {'C13', 'C20', 'C10', 'C11'},
 }
 
